@@ -1,5 +1,7 @@
 """C14 Tree ownership: each key/value destroyed exactly once, when it leaves the tree."""
-from plint import symx
+from plint import symx, guards
+from plint.flow import Flow
+from plint.ir import root_var
 from plint.symx import C, norm
 from plint.ir import strip_casts, line, show, walk, calls
 from plint.units import AnalysisBroken
@@ -156,7 +158,42 @@ def run(prog, rep):
                             bad.append((f, n))
         rep.ob("C14.4", u.fn("p_tree_%s_insert" % tag), "no-free", not bad, "the variant never frees or writes through user keys/values itself" if not bad else
                "%s frees or writes through a user key/value at line %d" % (bad[0][0].name, line(bad[0][1])), bad[0][1] if bad else u.fn("p_tree_%s_insert" % tag).loc[0])
-    rep.floor("C14.1", 3)
+    # "... and never while the pair is still stored": the notifiers of a removal run after the node has left the tree.  On every
+    # path of the three remove functions nothing is stored into a link, a root slot, a colour or a balance factor and no
+    # balancing helper runs once the first notifier has been called - what follows a notifier is another notifier, the release
+    # of the node and the return.  (A notifier may look the key up, walk the tree or remove a related pair: it must find the tree
+    # without the pair and in a consistent shape.)
+    from rules.treecommon import tree_view
+    for (un, tag) in VARIANTS:
+        u = prog.unit(un)
+        fv = tree_view(u.fn("p_tree_%s_remove" % tag))
+        notifs = set(p_ for p_ in fv.param_names() if "destroy" in p_)
+        late = []
+
+        def ns(st, b, i, stmt, late=late, notifs=notifs):
+            facts, called = st
+            if called:
+                for n in walk(stmt):
+                    if n["k"] == "asg":
+                        l = strip_casts(n["l"])
+                        if l is not None and (l["k"] == "member" or (l["k"] == "un" and l.get("op") == "*")):
+                            late.append((line(n), "stores into %s" % show(l)))
+                    elif n["k"] == "call" and n.get("callee") not in (None, "p_free", "__builtin_expect"):
+                        late.append((line(n), "calls %s" % n.get("callee")))
+            for n in walk(stmt):
+                if n["k"] == "call" and n.get("callee") is None and n.get("fnptr") is not None and root_var(n["fnptr"]) in notifs:
+                    called = True
+            return [(guards.transfer(facts, stmt), called)]
+
+        def ne(st, b, to, on):
+            f2 = guards.edge_assume(st[0], b, on)
+            return None if f2 is None else (f2, st[1])
+        if notifs:
+            Flow(fv, [(guards.EMPTY, False)], ns, ne, max_states=20000).run()
+        rep.ob("C14.1", fv, "after-unlink", bool(notifs) and not late, "the removal's notifiers run after the last link, colour or factor store and after the re-balancing" if (notifs and not late) else
+               ("line %d: remove %s after a destroy notifier was called: the notifier ran while the pair was still stored in the tree (a lookup from inside it finds the value being "
+                "destroyed, a traversal visits it, a nested removal works on a half-unlinked node)" % late[0] if late else "no notifier parameter found"), late[0][0] if late else fv.loc[0])
+    rep.floor("C14.1", 3 + 3)
     rep.floor("C14.2", 3)
 
     # ---- C14.3 clear / free ------------------------------------------------------------------------
@@ -289,7 +326,7 @@ SELFTEST = [
     dict(id="insert-notifiers-swapped", file="src/ptree.c", expect="C14.3",
          old="\t\t\t\t\t tree->key_destroy_func,\n\t\t\t\t\t tree->value_destroy_func,\n\t\t\t\t\t key,\n\t\t\t\t\t value);",
          new="\t\t\t\t\t tree->value_destroy_func,\n\t\t\t\t\t tree->key_destroy_func,\n\t\t\t\t\t key,\n\t\t\t\t\t value);"),
-    dict(id="bst-destroy-before-unlink-neutral", file="src/ptree-bst.c", expect=None,
+    dict(id="bst-destroy-before-unlink", file="src/ptree-bst.c", expect="C14.1",
          old="\t*node_pointer = cur_node->left == NULL ? cur_node->right : cur_node->left;\n\n\tif (key_destroy_func != NULL)\n\t\tkey_destroy_func (cur_node->key);\n\n\tif (value_destroy_func != NULL)\n\t\tvalue_destroy_func (cur_node->value);\n",
          new="\tif (key_destroy_func != NULL)\n\t\tkey_destroy_func (cur_node->key);\n\n\tif (value_destroy_func != NULL)\n\t\tvalue_destroy_func (cur_node->value);\n\n\t*node_pointer = cur_node->left == NULL ? cur_node->right : cur_node->left;\n"),
     dict(id="avl-left-only-via-predecessor-neutral", file="src/ptree-avl.c", expect=None,
